@@ -533,6 +533,25 @@ def make_val_events(ctx):
                             out.add(('e', bb, k))
         return out
 
+    def admissible_filter(body, qcall):
+        """`writer_of(dst).filter(|w| w != x)`: the recorded writer is dropped only when it equals x (the
+        current task) - the one admissible escape, written as a filter. Returns the filter call or None."""
+        for fc in body.find_calls(lambda f: f.qname == 'std::option::Option::filter' and qcall.bb in ctx.base_call_bbs(body.orig_operand(f.args[0]))):
+            for o in body.orig_operand(fc.args[1]):
+                if o.kind != 'aggr':
+                    continue
+                cid = body.blocks[o.key[0]]['stmts'][o.key[1]]['rv']['ak'].get('closure')
+                cb = F.bodies.get(cid)
+                if cb is None:
+                    continue
+                ro = cb.orig_local(0)
+                cs = [cb.calls[x.key] for x in ro if x.kind == 'call']
+                if len(ro) == 1 and len(cs) == 1 and cs[0].qname == 'std::cmp::PartialEq::ne' and len(cs[0].args) == 2:
+                    sides = [sorted({q.key for q in cb.orig_operand(a) if q.kind == 'arg'}) for a in cs[0].args]
+                    if sorted(sides) == [[1], [2]]:
+                        return fc
+        return None
+
     def m_overlap(body, node):
         if isinstance(node, tuple):
             return None
@@ -541,7 +560,8 @@ def make_val_events(ctx):
             return None
         inf = ctx.infeasible(body)
         esc = escape_edges(body, c)
-        edges = [(n, g) for n, g in guard_edges_on_call(body, c) if g.variants() and 'Some' in g.variants()]
+        subject = admissible_filter(body, c) or c
+        edges = [(n, g) for n, g in guard_edges_on_call(body, subject) if g.variants() and 'Some' in g.variants()]
         if not edges:
             return None
         for n, g in edges:
